@@ -240,7 +240,7 @@ def judge(ctx, stream, line, impl, model, flavour):
     return True
 
 
-def run_stream(ctx, stream, lines, drv, exes, asan_every):
+def run_stream(ctx, stream, lines, drv, exes, asan_every, ncorpus=0):
     """filter by the model's classification, run on the implementation(s), compare"""
     if not lines:
         return 0
@@ -249,8 +249,11 @@ def run_stream(ctx, stream, lines, drv, exes, asan_every):
     dropped = 0
     for i, l in enumerate(lines):
         if ml is None:
-            keep.append(l)
-            exp.append(None)
+            # no model to classify caller misuse: run only histories that cannot contain any
+            # (every pointer is freed at most once, sizes are never overstated)
+            if not re.search(r"; (S|G|T|Z)\b", l):
+                keep.append(l)
+                exp.append(None)
             continue
         body, _, tail = ml[i].partition(" | ")
         m = re.search(r"ok=(\d) cb=(\d+) hz=(\d+) bad=(\d+)", tail)
@@ -259,6 +262,15 @@ def run_stream(ctx, stream, lines, drv, exes, asan_every):
             continue
         if m.group(1) != "1":
             dropped += 1            # caller misuse / hazard: outside the theorem, not run
+            if i < ncorpus:
+                # a regression history of the corpus became a hazard under the current source
+                # (a fix was reverted): replay it alone, it may crash
+                rc, o, err = finding_run(ctx, exes["simd"], l)
+                if rc != 0 or BAD_TOKENS.search(o):
+                    toks = BAD_TOKENS.findall(o) or ["STOP"]
+                    ctx.violation("regression history fails again: %s -> %s (model: %s)" % (l[:300], o[-160:], ml[i][-80:]),
+                                  {"lines": [l], "impl": o, "model": ml[i], "flavour": "simd", "stream": stream},
+                                  signature="%s:regression:%s" % (stream, classify(toks[0])))
             continue
         keep.append(l)
         exp.append(body)
@@ -351,11 +363,13 @@ def run(ctx):
     # ---- histories
     d_lines = [l for l in corpus if l.startswith("hist tj ")]
     i_lines = [l for l in corpus if l.startswith("hist ijg ")]
+    ncd, nci = len(d_lines), len(i_lines)
     for _ in range(ctx.n(2500, 40000)):
         d_lines.append(gen_history(rng, "tj", rng.range(1, 5), d_call_maker))
     for _ in range(ctx.n(600, 8000)):
         i_lines.append(gen_history(rng, "ijg", rng.range(1, 4), i_call_maker))
     t_lines = []
+    nct = 0
     if sized:
         # corpus lines of the T stream name the operation by index into the fixed specs
         for l in corpus:
@@ -364,11 +378,12 @@ def run(ctx):
                     s, n = sized[int(m.group(2)) % len(sized)]
                     return "J %s %d %s" % (m.group(1), n, spec_str(s))
                 t_lines.append("hist tjx " + re.sub(r"J (\d) #(\d+)", sub, l[6:]))
+        nct = len(t_lines)
         for _ in range(ctx.n(900, 12000)):
             t_lines.append(gen_history(rng, "tjx", rng.range(1, 4), t_call_maker))
-    nd = run_stream(ctx, "D", d_lines, drv, exes, 3)
-    ni = run_stream(ctx, "I", i_lines, drv, exes, 3)
-    nt = run_stream(ctx, "T", t_lines, drv, exes, 4)
+    nd = run_stream(ctx, "D", d_lines, drv, exes, 3, ncorpus=ncd)
+    ni = run_stream(ctx, "I", i_lines, drv, exes, 3, ncorpus=nci)
+    nt = run_stream(ctx, "T", t_lines, drv, exes, 4, ncorpus=nct)
     ctx.cov["traces_validated_against_impl"] = nd + ni + nt if drv else 0
 
     # ---- arithmetic: ICC overhead and tj3JPEGBufSize, model vs implementation vs closed form
